@@ -163,6 +163,25 @@ pub fn seeds(tier: Tier) -> Vec<(Seed, Level)> {
             out.push((mutate::seed(&format!("ExtInst:{}:{}", setname, n), &[imp, f, l], &ext, &[r, fe]), Level::Framing));
         }
     }
+    // every extended-instruction number of both known sets with 0..=5 trailing operands, once with small and once with
+    // large operand words (a disassembler that interprets ext-inst operands by the set's own grammar is reached)
+    for (setname, table) in [("GLSL.std.450", &g.glsl), ("OpenCL.std", &g.opencl)] {
+        for e in table.iter() {
+            for argc in 0..=5usize {
+                for (vn, vals) in [("small", [0u32, 1, 2, 3, 2, 1]), ("large", [4, 61, 0xFFFF_FFFF, 7, 0x8000_0000, 255])] {
+                    let imp = Inst::new("ExtInstImport", None, Some(5), vec![Arg::Str(setname.to_string())]);
+                    let f = Inst::new("Function", Some(50), Some(51), vec![Arg::Mask("FunctionControl", 0), Arg::IdRef(52)]);
+                    let l = Inst::new("Label", None, Some(53), vec![]);
+                    let mut args = vec![Arg::IdRef(5), Arg::ExtInstNo(e.opcode)];
+                    args.extend(vals[..argc].iter().map(|v| Arg::IdRef(*v)));
+                    let ext = Inst::new("ExtInst", Some(50), Some(60), args);
+                    let r = Inst::new("Return", None, None, vec![]);
+                    let fe = Inst::new("FunctionEnd", None, None, vec![]);
+                    out.push((mutate::seed(&format!("ExtInst:{}:{}:args{}:{}", setname, e.opcode, argc, vn), &[imp, f, l], &ext, &[r, fe]), Level::Scale));
+                }
+            }
+        }
+    }
     // literal consumers behind int / float types of extreme widths (size arithmetic at the range boundary)
     for w in [0u32, 1, 7, 9, 31, 33, 63, 65, 127, 129, 0x7FFF_FFFF, 0x8000_0000, 0xFFFF_FFE0, 0xFFFF_FFE1, 0xFFFF_FFFF] {
         for (tname, ty) in [("int", Inst::new("TypeInt", None, Some(10), vec![Arg::Lit32(w), Arg::Lit32(1)])), ("float", Inst::new("TypeFloat", None, Some(10), vec![Arg::Lit32(w)]))] {
